@@ -348,6 +348,46 @@ def check_proxy_combine(ctx, DP, h1, h2, merge, retention, comb, k):
 
 
 # ------------------------------------------------------------------ in situ
+def check_alias(ctx, DP, h1, extra, merge, retention, k):
+    """Aliasing sanitizer: an entry built explicitly from a live ``set`` (the caller's own set, or the tag set read from
+    another entry) must own its tags.  After tied candidates are offered to either holder, the other holder and the
+    caller's set must read exactly as before."""
+    case = {"kind": "alias", "h1": [list(h) for h in h1], "extra": [list(h) for h in extra], "merge": merge, "retention": retention, "k": k}
+    mp = getattr(DP.MergePolicy, merge)
+    rp = getattr(DP.RetentionPolicy, retention)
+    try:
+        src = DP.Entry(mp, rp)
+        src.update(*[DP.Candidate(v, tg) for v, tg in h1])
+        model_src = list(h1)
+        val = src.value()
+        live = src.infos() if k % 2 == 0 else set(src.infos())
+        mine_before = set(live)
+        if k % 3 == 0:
+            t = DP.Table((DP.ListDimension(2),), mp, rp)
+            new = t.entry(val, live)
+        else:
+            new = DP.Entry(val, live, mp, rp)
+        model_new = [(num(val), tg) for tg in mine_before] or [(num(val), None)]
+        ties = [(num(val), tg) for _, tg in extra]
+        if k % 4 < 2:
+            new.update(*[DP.Candidate(val, tg) for _, tg in extra])
+            model_new = model_new + ties
+        else:
+            src.update(*[DP.Candidate(val, tg) for _, tg in extra])
+            model_src = model_src + ties
+        ctx.count("evaluations")
+        ctx.count("mon.alias")
+        if k % 2 == 1 and live != mine_before:
+            ctx.viol("C16.history", case, f"the caller's own tag set changed from {sorted(mine_before)} to {sorted(live)} after updates of an entry built from it")
+        for who, e, hist in (("the source entry", src, model_src), ("the entry built from its tags", new, model_new)):
+            for msg in judge(read_entry(e), hist, merge == "MIN", retention):
+                ctx.viol("C16.history", case, f"{who} after tied candidates were offered to the other one: {msg}")
+                break
+        ctx.sig(("alias", merge, retention, len(mine_before), len(extra), k % 12), True)
+    except Exception as exc:  # noqa: BLE001
+        ctx.viol("C16.history", case, f"exception {type(exc).__name__}: {exc}")
+
+
 class Shadow:
     """L2: record the update history of every Entry created while real solvers run."""
 
@@ -474,6 +514,14 @@ def run(ctx, spec):
             h1 = [(infv, t) for _, t in h1]
         ctx.count("mon.combine_infinite")
         check_combine(ctx, DP, h1, h2, merge, retention, rng.choice(["sum", "sum_plus_tag", "max_notag", "clip", "clip"]))
+    # aliasing: entries built explicitly from a live tag set
+    for k in range(240 if ctx.tier == "quick" else 4000):
+        merge, retention = ("MIN", "ALL") if k % 3 else rng.choice([("MAX", "ALL"), ("MIN", "ANY"), ("MAX", "ANY")])
+        v0 = rng.choice(VALUES)
+        ntag = rng.randint(0, 3) if retention == "ALL" else rng.randint(0, 1)
+        h1 = [(v0, f"s{i}") for i in range(ntag)] or [(v0, None)]
+        extra = [(v0, rng.choice(["x", "y", "z"])) for _ in range(rng.randint(1, 3))]
+        check_alias(ctx, DP, h1, extra, merge, retention, k)
     # independence of cells on every List/Dict shape of 1-3 dimensions
     for k in range(120 if ctx.tier == "quick" else 2500):
         shape = SHAPES[(k + spec["i"]) % len(SHAPES)]
@@ -537,6 +585,8 @@ def replay(ctx, case):
     if case["kind"] == "hist":
         hist = [tuple(tuple(x) if isinstance(x, list) else x for x in h) for h in case["history"]]
         check_history(ctx, DP, hist, tuple(case["batches"]), case["merge"], case["retention"], case["container"])
+    elif case["kind"] == "alias":
+        check_alias(ctx, DP, [tuple(h) for h in case["h1"]], [tuple(h) for h in case["extra"]], case["merge"], case["retention"], case["k"])
     elif case["kind"] == "grid":
         check_grid(ctx, DP, tuple(case["shape"]), case["merge"], case["retention"], [tuple([tuple(op[0])] + list(op[1:])) for op in case["ops"]],
                    [(tuple(k), r) for k, r in case.get("held", [])])
